@@ -92,7 +92,14 @@ func (e *Env) FaultYield(site string) {
 	e.count()
 }
 
+// globalTick counts yield points process-wide (single-party runs and scheduled ones alike):
+// the no-progress monitor of SafeExec watches it.
+var globalTick uint64
+
 func (e *Env) count() {
+	if e.yields&255 == 0 {
+		atomic.AddUint64(&globalTick, 1) // coarse: the monitor only needs to see that there is progress
+	}
 	e.yields++
 	if e.maxYields > 0 && e.yields > e.maxYields {
 		panic(WatchdogAbort{e.yields})
